@@ -331,7 +331,7 @@ def gen_cases(rng, tier, vals, flag):
                     for d in ([0, 1, 7, 64] if thorough else [rng.choice([0, 1]), rng.choice([2, 5, 33])]):
                         dd = 0 if f in ("deg0", "nzdeg0") else d
                         # destination: every form meets every preset (fresh / larger / one coefficient / same size / much larger, not normalised)
-                        for how in ([0, 1, 2, 3, 4] if thorough else [k_ % 5, (k_ + 1 + k_ // 5) % 5 if (k_ + 1 + k_ // 5) % 5 != k_ % 5 else (k_ + 2) % 5]):
+                        for how in ([0, 1, 4, 2 + k_ % 2] if thorough else [k_ % 5, (k_ + 1 + k_ // 5) % 5 if (k_ + 1 + k_ // 5) % 5 != k_ % 5 else (k_ + 2) % 5]):
                             add(fam="poly", ring=name, p=ps, form=f, seed=s, d=dd, how=how, line="poly %s %s %s %d %d %d" % (name, ps, f, s, dd, how))
                         k_ += 1
     # one destination, sequences of requests with degrees going down as well as up, every front end, every preset (deterministic)
@@ -627,6 +627,61 @@ def parse_elems(s):
     return res
 
 
+CALL_FORMS_LEGEND = {
+    "lcg/<form>": "GivRandom: call = operator()(), brand, u8..i64 = operator()(XXX&), copy = copy constructor, assign = operator=, maxrand",
+    "ring/<op>": "F.random(g,a) | random_sz = F.random(g,a,size) | nzrandom = F.nonzerorandom(g,a) | nzrandom_sz | iter = RandIter(F,seed,size) drawn through "
+                 "random(a), operator()(a), operator()(), random() in turn | nziter = GeneralRingNonZeroRandIter random(a), (a), () | itercopy = copy in mid-stream; "
+                 "x 33 ring types (distribution_by_family has the per-type counts); destinations preset to -1 / max / min / 0 / non-integral floats in rotation",
+    "ringseq/<letter>": "on ONE iterator object: r random(a) c operator()(a) v operator()() R random() n/m NonZeroRandIter (and a copy of it) C copy-construct A assign; sampling sizes 0,1,2,q-1,q,q+1,max",
+    "poly/<form>/preset<k>": "Poly1Dom random/nonzerorandom (g,r,Degree) (g,r) (g,r,size) (g,r,b); destination preset 0 empty 1 larger 2 one coefficient 3 same size 4 much larger, not normalised",
+    "polyseq/<letter>": "requests on ONE destination: D/d (Degree) Z/z () S/s (size) L/l (b) of random / nonzerorandom, I = Poly1Dom::RandIter (GIV_randIter<Poly1Dom>) random(r) / operator()(r)",
+    "ext/<op>": "Extension<GFqDom<int64_t>>: random(g,r) random(g,r,s) random(g,r,b) and the nonzerorandom forms into one reused element, sizes s,1,s,s+1,..; iter = GIV_ExtensionrandIter random(e)/operator()(e) + copy",
+    "int/<op>/<variant>": "Integer range constructions: variant t/f/d = template <true>/<false>/non-template; lt_I lt_2e lt_2ev lt_u64 ex_2e ex_I ex_u64 ex_T ex_Tv bt_I bt_Iv bt_2e bt_2ev bt_u64 bt_u64v "
+                          "bt_R bt_Rv rnd0 nz0 rbool rnd_T rnd_Tv lt_Tv nz_T nz_Tv (v = value-returning; T in int,uint,long,ulong,short,Integer) zr_* = ZRing<Integer>::random/nonzerorandom; "
+                          "both seeding forms; destination preset -77 / 2^200+12345 / -(2^130+7) / 0 in rotation",
+    "rii, riiseq/<op>": "RandomIntegerIterator<U,E> 4 instantiations: constructor (2 forms), ++, *, randomInteger(), random(a), (a), (), random(), setBitsize, copy, assignment",
+    "mii/ctor<k>": "ModularRandIter<Modular<Integer>>: constructors (F) (F,seed) (F,seed,size); random(a), (a), (), random(); NonZeroRandIter random(a), copy (a), ()",
+    "qf/<form>": "QField<Rational>::random / nonzerorandom: (g,r,int64) (g,r) (g,r,const Rep&)",
+    "gfqx/w<bits>": "GFqExtFast<int32_t>::random / GFqExt<int64_t>::random (+ table look-ups at the model's indices in the same process)",
+    "ru, rm/<mg>, modru/<ring>/<op>": "RecInt::rand(ruint<K>) K=6..10, rand(rint<K>), rand(rmint<K,MGI|MGA>), a.random(); Modular<ruint<K>[,ruint<K+1>]> and Montgomery<ruint<K>> random / nonzerorandom / RandIter",
+}
+
+
+def form_keys(c):
+    fam = c["fam"]
+    if fam == "lcg":
+        return ["lcg/" + c["form"]]
+    if fam == "ring":
+        return ["ring/" + c["op"]]
+    if fam == "ringseq":
+        return ["ringseq/" + ch for ch in sorted(set(c["ops"]))]
+    if fam == "poly":
+        return ["poly/%s/preset%d" % (c["form"], c.get("how", 0))]
+    if fam == "polyseq":
+        return ["polyseq/" + ch for ch in sorted(set(o[0] for o in c["ops"]))]
+    if fam == "ext":
+        return ["ext/" + c["op"]]
+    if fam == "int":
+        return ["int/%s/%s" % (c["op"], c["var"][0])]
+    if fam == "riiseq":
+        return ["riiseq/" + ch for ch in sorted(set(o[0] for o in c["ops"]))]
+    if fam == "rii":
+        return ["rii/<%d,%d>" % (c["u"], c["e"])]
+    if fam == "mii":
+        return ["mii/ctor%d" % c.get("ctor", 3)] + (["mii/nonzero"] if c.get("nz") else [])
+    if fam == "qf":
+        return ["qf/" + c["form"]]
+    if fam == "gfqx":
+        return ["gfqx/w%d" % c["w"]]
+    if fam == "rm":
+        return ["rm/%s" % {0: "MGI", 1: "MGA", 2: "rint"}[c["mg"]]]
+    if fam == "modru":
+        return ["modru/%s/%s" % (c["ring"], c["op"])]
+    if fam == "ru":
+        return ["ru/K%d" % c["K"]]
+    return [fam]
+
+
 class GfqxSession:
     """one harness process kept alive for a dialogue (first pass: draws; second pass: table look-ups at the model's indices)"""
     WALL = 900
@@ -704,19 +759,29 @@ def main(tier, replay=None):
     # 3. cases
     cases, smax = gen_cases(rng, tier, vals, flag)
     # boundary-directed cases for the limb oracle: moduli equal to (or one off) the value the generator is about to produce
-    probes = [(K, s) for K in (6, 7, 8) for s in (1, 42, 2**64 - 1)]
-    rc, pout, _ = vf.run_lines(himpl, "".join("ru %d %d 1\n" % ks for ks in probes), timeout=60)
+    probes = [(K, s) for K in (6, 7, 8) for s in (1, 42, 2**64 - 1, 2, 3, 4, 5, 6, 7, 8, 9, 10, 11, 12)]
+    rc, pout, _ = vf.run_lines(himpl, "".join("ru %d %d 1\n" % ks for ks in probes), timeout=300)
     if rc == 0 and len(pout) == len(probes):
+        odd_seen = {}
         for (K, s), l in zip(probes, pout):
             v = int(l.split(" ;")[0])
-            for p in (v, v + 1, v - 1):
+            extra = s not in (1, 42, 2**64 - 1)
+            if extra and (v % 2 == 0 or odd_seen.get(K, 0) >= 2):
+                continue            # the extra seeds only serve to find ODD draws: Montgomery moduli equal to the value about to be drawn
+            if v % 2:
+                odd_seen[K] = odd_seen.get(K, 0) + 1
+            for p in ((v,) if extra else (v, v + 1, v - 1)):
                 name = "ru%d" % K
                 for op in ("random", "nzrandom"):
                     cases.append(dict(fam="modru", ring=name, K=K, p=p, op=op, seed=s, n=3, line="modru %s %d %s %d 3" % (name, p, op, s)))
                 if p % 2:
-                    cases.append(dict(fam="modru", ring="mg" + name, K=K, p=p, op="random", seed=s, n=3, line="modru mg%s %d random %d 3" % (name, p, s)))
+                    for op in ("random", "nzrandom", "iter"):
+                        cases.append(dict(fam="modru", ring="mg" + name, K=K, p=p, op=op, seed=s, n=3, line="modru mg%s %d %s %d 3" % (name, p, op, s)))
                     cases.append(dict(fam="rm", K=K, mg=1, p=p, seed=s, n=3, line="rm %d 1 %d %d 3" % (K, p, s)))
                 cases.append(dict(fam="rm", K=K, mg=0, p=p, seed=s, n=3, line="rm %d 0 %d %d 3" % (K, p, s)))
+        chk.cov["montgomery_moduli_equal_to_next_draw"] = odd_seen
+        if any(odd_seen.get(K, 0) == 0 for K in (6, 7, 8)):
+            chk.broke("no odd first draw found for some K: the boundary case modulus = value about to be drawn is not generated for the Montgomery rings: %s" % odd_seen)
     else:
         chk.broke("probe run of the harness failed")
     if replay:
@@ -734,6 +799,9 @@ def main(tier, replay=None):
         for c in cases[nbatch:]:
             o_ = gsess.ask(c["line"])
             if o_ is None:
+                rc = gsess.p.poll() if gsess.p.poll() not in (None, 0) else -1        # the dialogue process died on this case
+                if gsess.timed_out:
+                    rc = 124
                 break
             iout.append(o_)
     if rc == 124:
@@ -793,12 +861,15 @@ def main(tier, replay=None):
     ncorr = 0
     dist = {}
     riiseed_cache = {}
+    forms = {}
     gfqx_second = []
     for i, c in enumerate(cases):
         out = iout[i]
         fam = c["fam"]
         key = fam + ("/" + str(c.get("ring", c.get("op", c.get("form", "")))) if fam not in ("ru", "riiseq", "gfqx") else "")
         dist[key] = dist.get(key, 0) + 1
+        for fk in form_keys(c):
+            forms[fk] = forms.get(fk, 0) + 1
         chk.count(c["line"], nontrivial=True)
         if i % 499 == 0:
             chk.sample({"case": c["line"], "impl": out[:300]})
@@ -1216,6 +1287,7 @@ def main(tier, replay=None):
                        "no-overflow bound, >= 2^63, 0 (timer); distinct = input line")
     chk.cov["traces_validated_against_impl"] = ncorr
     chk.cov["distribution_by_family"] = dist
+    chk.cov["call_forms"] = {"legend": CALL_FORMS_LEGEND, "cases_per_form": dict(sorted(forms.items()))}
     chk.cov["givrandom_constants_from_source"] = vals
     chk.cov["constructor_normalises_seed"] = flag
     return chk.finish()
